@@ -66,6 +66,16 @@ def gen(seed):
                              'at': rng.randint(0, 200)})
         if not spec['opt'].get('j'):
             spec['opt']['j'] = rng.randint(2, 3)
+    if seed % 9 == 7 and world['layers']:
+        # a transient read error on one child's stdout pipe (reported, retried): the child's
+        # report still counts
+        srng = random.Random(seed ^ 0xE10)
+        L = srng.choice(world['layers'])['name']
+        spec['plan'].append({'site': 'channel', 'ident': m.full(L), 'a': 'eintr',
+                             'nth': srng.randint(1, 6),
+                             'errno': srng.choice(['EIO', 'EAGAIN', 'EINTR'])})
+        if not spec['opt'].get('j'):
+            spec['opt']['j'] = srng.randint(2, 3)
     if seed % 9 == 4 and world['layers']:
         # a slow child: its report arrives long (in virtual time) after it closed its stdout, or
         # it stalls in the middle - the verdict must wait for it
